@@ -332,7 +332,11 @@ func CheckMain(args []string) int {
 				defer rwg.Done()
 				rsem <- struct{}{}
 				defer func() { <-rsem }()
-				tk.out, tk.verdict = NativeReplay(tk.h, hdir, tk.file, outDir)
+				want := "fail"
+				if tk.witness {
+					want = "pass"
+				}
+				tk.out, tk.verdict = NativeReplayWant(tk.h, hdir, tk.file, outDir, want)
 			}(tk)
 		}
 		rwg.Wait()
@@ -405,7 +409,7 @@ func CheckMain(args []string) int {
 	}
 	wall := time.Since(start).Seconds()
 
-	if !*noEvidence {
+	if !*noEvidence && len(onlySet) == 0 {
 		var hsl []*harnessSummary
 		for _, h := range active {
 			hsl = append(hsl, sums[h.Name])
@@ -505,6 +509,24 @@ func tail(s string, n int) string {
 // verdict: "fail" (assertion failed / panicked natively), "pass", "rejected"
 // (an assumption did not hold natively), "error".
 func NativeReplay(h *HarnessSpec, hdir, cexPath, outDir string) (string, string) {
+	return NativeReplayWant(h, hdir, cexPath, outDir, "")
+}
+
+// NativeReplayWant retries (with longer native yields) until the wanted
+// verdict is seen, at most 3 times: native runs use real goroutines and
+// short sleeps for verifYield, which a loaded machine can starve.
+func NativeReplayWant(h *HarnessSpec, hdir, cexPath, outDir, want string) (string, string) {
+	out, verdict := "", ""
+	for i, scale := range []string{"1", "5", "25"} {
+		out, verdict = nativeReplayOnce(h, hdir, cexPath, outDir, scale)
+		if want == "" || verdict == want || verdict == "error" && i > 0 {
+			break
+		}
+	}
+	return out, verdict
+}
+
+func nativeReplayOnce(h *HarnessSpec, hdir, cexPath, outDir, yieldScale string) (string, string) {
 	ov, pkgName, stubs, err := h.Overlay(hdir, "native")
 	if err != nil {
 		return err.Error(), "error"
@@ -557,7 +579,7 @@ func NativeReplay(h *HarnessSpec, hdir, cexPath, outDir string) (string, string)
 	cmd := exec.CommandContext(ctx, "go", append([]string{"test", "-v", "-vet=off", "-count=1", "-run", "^TestVerifReplay$", "-overlay", ovFile, "-timeout", "120s"}, targets...)...)
 	cmd.Dir = runDir
 	abs, _ := filepath.Abs(cexPath)
-	cmd.Env = append(GoEnv(filepath.Join(tmp, "gomod")), "VERIF_MODEL="+abs)
+	cmd.Env = append(GoEnv(filepath.Join(tmp, "gomod")), "VERIF_MODEL="+abs, "VERIF_YIELD_SCALE="+yieldScale)
 	outB, _ := cmd.CombinedOutput()
 	out := string(outB)
 	switch {
